@@ -360,7 +360,7 @@ theorem cycleM5_live_normal {app : App} {s : State} {a : Arch} (hsmall : app.ins
   | err => exact ⟨s3, .done .err, rfl, trivial⟩
   | none =>
     obtain ⟨hiwf3, hfurem3, hfupc3, hdbus3, hbtb3⟩ := hfront3 (fun h => by cases h)
-    rcases hpost with ⟨hb3, hn3, hst⟩ | ⟨a', c, hstep, hb3, hn3, hproc3, hpend3⟩
+    rcases hpost with ⟨hb3, hn3, hst, _⟩ | ⟨a', c, hstep, hb3, hn3, hproc3, hpend3, _⟩
     · -- nothing executed
       have hst := hst hlive2
       obtain ⟨b4, hw4, h4, hwc4, hWle, hWlt, hWid⟩ := writeCycle5_live hb3 (by rw [hwu3]; exact hlv.live.wuCyc)
